@@ -103,6 +103,16 @@ Theorem C15_survives :
 Proof. exact survives. Qed.
 Print Assumptions C15_survives.
 
+(** With forget_channel writing the tracker entry (the code as repaired), a restart from the
+    store, at any point of any history, restores exactly the state that was running: every
+    monitor, forget flag, the high-water mark and the channel map.  Hence every later pruning
+    decision (and every other answer) is the same with or without the restart. *)
+Theorem C15_restart_changes_nothing :
+  forall (p : params) (h : N) (ops : list nop) (s : node),
+    forget_flush p = true -> nrun p (init_node h) ops = Ok s -> step p s Restart = Ok (s, Done).
+Proof. exact restart_changes_nothing. Qed.
+Print Assumptions C15_restart_changes_nothing.
+
 (** The high-water mark never decreases, whatever happens (restarts included). *)
 Theorem C15_hwm_monotone :
   forall (p : params) (ops : list nop) (s s' : node), nrun p s ops = Ok s' -> hwm s <= hwm s'.
